@@ -47,6 +47,8 @@ class C14(Prop):
             mode = rng.choice(["same", "same", "same", "other-profile", "custom-path"])
             case = {"testing": rng.random() < 0.5, "mode": mode, "buckets": buckets,
                     "other_first": mode == "same" and rng.random() < 0.3}
+            if mode == "same" and i % 5 == 2:
+                case["emptied"] = True
             r = rng.random()
             if mode == "same" and r < 0.2:
                 # other files whose names begin like the legacy database lie beside it (a backup copy, a stale journal)
@@ -80,6 +82,12 @@ class C14(Prop):
                 b["events"] = b["events"] + [[None, FUTURE + rng.randrange(0, 9) * 1_000_000, rng.choice([0, 1_000_000]), storegen.LABELS[0]]
                                              for _ in range(rng.randint(1, 3))]
                 b["events"].append([None, T0, FUTURE - T0 + 5_000_000, storegen.LABELS[1]])  # begins in the past, ends in 2149
+            if rng.random() < 0.25 and buckets:
+                # runs of events whose data are equal for Python (1 == True == 1.0) and different JSON values
+                b = rng.choice(buckets)
+                t = storegen.LABELS_JSON_TYPES
+                run = [t[0], t[1], t[2], t[3], t[4], t[5], t[6]] if rng.random() < 0.5 else [rng.choice(t) for _ in range(6)]
+                b["events"] = b["events"] + [[None, T0 + (60 + k) * 1_000_000, 1_000_000, x] for k, x in enumerate(run)]
             out.append(("legacy-db", case))
         # a legacy bucket larger than any batch size the copy might use (100, 1000), not a multiple of either
         for n in ((1234,) if ctx.quick else (101, 1001, 1234, 2500)):
@@ -87,6 +95,13 @@ class C14(Prop):
             out.append(("legacy-db-large", {"testing": rng.random() < 0.5, "mode": "same", "other_first": False,
                                             "buckets": [{"id": "big", "meta": storegen.mk_meta(rng, "big"), "events": evs},
                                                         {"id": "small", "meta": storegen.mk_meta(rng, "small"), "events": evs[:3]}]}))
+        # texts that a JSON document can carry only escaped (half of a surrogate pair, NUL) or that some tools treat as
+        # line ends; the model's strings are UTF-8, so these cases are judged on the two real stores alone
+        ODD = ["\ud83d", "half \ude00 pair", "nul\x00char", "line\u2028sep\u2029", "\x7f\x80\ufffe"]
+        for k, txt in enumerate(ODD if ctx.quick else ODD * 3):
+            evs = [[None, T0 + j * 1_000_000, 1_000_000, json.dumps({"title": txt, txt: j}, ensure_ascii=True)] for j in range(3)]
+            out.append(("legacy-odd-text", {"testing": k % 2 == 0, "mode": "same", "other_first": False, "no_model": True,
+                                            "buckets": [{"id": "odd", "meta": storegen.mk_meta(rng, "odd"), "events": evs}]}))
         return out
 
     def impl(self, case):
@@ -151,6 +166,16 @@ class C14(Prop):
                 new2 = SqliteStorage(testing=not case["testing"])  # the first new store is still open
                 second["new"] = storelib.dump(type("S", (), {"st": new2}))
                 new2.conn.close()
+            emptied = None
+            if case.get("emptied") and case["mode"] == "same":
+                # the user deletes every migrated bucket, the process ends without a clean shutdown (the connection is
+                # dropped with whatever it had not committed), and the store - no longer a new file - is opened again
+                for b in list(new.buckets()):
+                    new.delete_bucket(b)
+                new.conn.close()
+                again = SqliteStorage(testing=case["testing"])
+                emptied = sorted(again.buckets())
+                new = again
             new.conn.close()
             try:
                 pw._db.close()
@@ -158,7 +183,7 @@ class C14(Prop):
                 pass
             h1 = file_hash(lpath) if os.path.exists(lpath) else "legacy file is gone"
             return {"legacy": legacy_dump, "new": new_dump, "legacy_unchanged": h0 == h1, "files": files, "second": second,
-                    "fresh": fresh}
+                    "fresh": fresh, "emptied": emptied}
         finally:
             if old_env is None:
                 os.environ.pop("XDG_DATA_HOME", None)
@@ -167,6 +192,8 @@ class C14(Prop):
             shutil.rmtree(d, ignore_errors=True)
 
     def model_lines(self, case):
+        if case.get("no_model"):
+            return []
         L = ["store reset"]
         for b in case["buckets"]:
             L.append(f"store peewee create {hx(b['id'])} {storelib.p_meta(b['meta'])}")
@@ -180,6 +207,8 @@ class C14(Prop):
         return L
 
     def model_out(self, case, answers):
+        if case.get("no_model"):
+            return None
         legacy = storelib.parse_dump(answers[-4])
         trig = answers[-3].split()[1] == "1"
         new = storelib.parse_dump(answers[-1]) if trig else {}
@@ -188,6 +217,8 @@ class C14(Prop):
         return {"legacy": legacy, "new": new}
 
     def same(self, case, io, mo):
+        if mo is None:
+            return True
         return io["legacy"] == mo["legacy"] and io["new"] == mo["new"]
 
     def oracle(self, case, out):
@@ -202,6 +233,9 @@ class C14(Prop):
             if out["fresh"] != want:
                 return (f"right after the new store was constructed a second connection sees {out['fresh']} events per bucket, "
                         f"the legacy store holds {want} (migrated events left uncommitted)")
+        if out.get("emptied"):
+            return (f"every bucket was deleted from the migrated store and the store opened again: it holds {out['emptied']} "
+                    "(the migration ran on a file that was not new, or the deletions were lost)")
         pairs = [("", out["legacy"], out["new"])]
         if out.get("second"):
             pairs.append(("other profile, migrated second by the same process: ", out["second"]["legacy"], out["second"]["new"]))
